@@ -8,3 +8,4 @@ pub mod mem;
 pub mod dynf;
 pub mod cache;
 pub mod spawny;
+pub mod errs;
